@@ -154,7 +154,7 @@ Definition ref_to_alt_position (g : gpo) (p : Z) (nearest : option search) : res
              | Some o => Ok (Some (ref_offset_to_alt_pos g (g_start g + o)))
              end
          end
-  else Ok (Some (ref_offset_to_alt_pos g (re (g_range g)))).
+  else Ok (Some (p + get_pos_offset (g_pos_offsets g) (re (g_range g)))).
 
 Definition alt_end (g : gpo) : option Z :=
   if g_alt_length g =? 0 then None else Some (get_end (g_start g) (g_alt_length g)).
